@@ -57,6 +57,7 @@ def make_cond(ids: Ids, rng, names: List[str], role: str, is_async: bool, forms=
     if err in ("factory", "method"):
         c["eargs"] = pick_args(rng, names, extra)
         c["edefaults"] = [n for n in c["eargs"] if rng.random() < 0.3]
+        c["eextra"] = rng.random() < 0.2
     return c
 
 
@@ -194,8 +195,8 @@ MEMBER_CHOICES = ("absent", "plain", "pre", "post", "both")
 
 def hier_program(ids: Ids, rng, shape: List[List[int]], kind: str, is_async: bool, choices: Optional[List[str]] = None,
                  allow_reject: bool = False, inv_prob: float = 0.3, max_conj: int = 2, forms=None, errs=None,
-                 with_snaps: bool = True, avoid_mixed: bool = False, dbc_root: bool = True, avoid_copy_shadow: bool = True,
-                 inv_check_ons=("CALL", "CALL", "DEFAULT", "ALL", "SETATTR")) -> Dict[str, Any]:
+                 with_snaps: bool = True, avoid_mixed: bool = False, dbc_root: bool = True, avoid_copy_shadow: bool = False,
+                 inv_check_ons=("CALL", "CALL", "DEFAULT", "ALL", "SETATTR"), foreign_prob: float = 0.2) -> Dict[str, Any]:
     """One hierarchy (classes K<n>) with one member of the given kind declared/overridden per ``choices``."""
     from vkit.model import Model  # pylint: disable=import-outside-toplevel
 
@@ -260,6 +261,13 @@ def hier_program(ids: Ids, rng, shape: List[List[int]], kind: str, is_async: boo
         names.append(cname)
         if allow_reject and rej is not None:
             break
+    # now and then a foreign functools.wraps decorator above the contracts of a member (the checker is then not the outermost
+    # object of the decorator stack; the foreign wrapper carries copies of the checker's attributes)
+    if kind not in ("init", "new") and rng.random() < foreign_prob:
+        for c in classes:
+            for m in c["members"]:
+                if m.get("decos") and rng.random() < 0.6:
+                    m["decos"].append(["foreign", "F" + m["name"] + c["name"]])
     return {"funcs": [], "classes": classes, "member": base, "kind": kind, "key": key if mkind not in ("pget", "pset", "pdel")
             else "{}.{}".format(base, mkind)}
 
